@@ -350,3 +350,100 @@ def gen_callbacks(seed, tier):
                 b.ops.append({"op": "rendercbs", "t": 1})
         out.append(b.ops)
     return out
+
+
+DECOR_NAMES = ["ascii-simple", "none", "utf8-light", "utf8-light-curved", "utf8-heavy", "utf8-double"]
+DECOR_FIELDS = ["Horizontal", "Vertical", "CrossPiece", "TopDown", "VBorder", "HOuter", "HRule", "VHeader",
+                "VBodyBorder", "VBodyInner", "TopLeft", "TopRight", "BottomLeft", "BottomRight", "LeftBodyRule", "RightBodyRule",
+                "HTopDown", "BTopDown", "BBottomUp", "HBCross", "HBLeft", "HBRight"]
+GLYPHS = list("abcdefghijklmnopqrstuvwxyzABCDEFGHIJKLMNOPQRSTUVWXYZ0123456789*+=-|#@%") + ["é", "ß", "╳", "░", "·"]
+
+TEXTS = ["a", "bb", "ccc", "", "x y", "line1\nline2", "tail\n", "\nlead", "a\n\nb", "日本", "é", "z​w",
+         "\U0001F468‍\U0001F469‍\U0001F467", "\U0001F1E9\U0001F1EA", "wideＡ", "0", "-1.5", "three\nlines\nhere", " padded ",
+         "ｗｉｄｅ\nnarrow", "\U0001F44D\U0001F3FD ok", "한글", "longer text in a cell", "\n", "\n\n"]
+
+
+def rnd_text_item(rng, texts=TEXTS, sized=0.15):
+    r = rng.random()
+    if r < sized / 2:
+        # a single-line item declaring its width
+        return {"k": "obj", "caps": ["String", "Width"], "strv": rng.choice([t for t in texts if "\n" not in t and t != ""]),
+                "w": rng.randint(0, 9)}
+    if r < sized:
+        return {"k": "obj", "caps": ["String", "Height"], "strv": rng.choice(texts), "h": rng.randint(-1, 4)}
+    if r < sized + 0.05:
+        return {"k": "nil"}
+    if r < sized + 0.1:
+        return {"k": "other", "which": rng.choice(["int42", "float", "true", "named", "strhidden", "error"])}
+    if r < sized + 0.13:
+        return {"k": "cell", "inner": S(rng.choice(texts))}
+    return S(rng.choice(texts))
+
+
+def build_table(rng, b, maxcols, maxrows, item, hdr_p=0.7, sep_p=0.15, via=None):
+    """Appends a random table (header, rows, separators, ragged/empty rows, late cells) to builder b; returns ncols."""
+    ncols = 0
+    t = 1
+    if rng.random() < hdr_p:
+        n = rng.randint(0, maxcols)
+        b.ops.append({"op": "headers", "t": t, "items": [item() for _ in range(n)]})
+        ncols = max(ncols, n)
+    for _ in range(rng.randint(0, maxrows)):
+        r = rng.random()
+        if r < sep_p:
+            b.ops.append({"op": "sep", "t": t})
+            b.rows.append({"sep": True, "n": 0, "tbl": t})
+        elif r < sep_p + 0.1:
+            # a row built by hand, possibly extended after it joined the table
+            b.ops.append({"op": "newrow", "how": rng.choice(["sizedfor", "new", "cap"]), "t": t, "cap": rng.randint(0, 3)})
+            b.rows.append({"sep": False, "n": 0, "tbl": 0})
+            rid = len(b.rows)
+            n = rng.randint(0, maxcols)
+            k = rng.randint(0, n)
+            for _ in range(k):
+                b.ops.append({"op": "rowadd", "r": rid, "item": item()})
+            b.ops.append({"op": "addrow", "t": t, "r": rid})
+            for _ in range(n - k):
+                b.ops.append({"op": "rowadd", "r": rid, "item": item()})
+            b.rows[rid - 1].update(n=n, tbl=t)
+            ncols = max(ncols, n)
+        else:
+            n = rng.randint(0, maxcols)
+            b.ops.append({"op": "rowitems", "t": t, "items": [item() for _ in range(n)]})
+            b.rows.append({"sep": False, "n": n, "tbl": t})
+            ncols = max(ncols, n)
+    return ncols
+
+
+def rnd_decor_op(rng, w):
+    r = rng.random()
+    if r < 0.6:
+        return {"op": "decor", "w": w, "name": rng.choice(DECOR_NAMES)}
+    fields = rng.sample(DECOR_FIELDS, rng.randint(0, len(DECOR_FIELDS)))
+    glyphs = rng.sample(GLYPHS, len(fields))
+    return {"op": "decor", "w": w, "custom": dict(zip(fields, glyphs))}
+
+
+def gen_text(seed, tier, sized=0.0, aligns=0.3):
+    """C03/C04: random tables (<= 6 x 8, ragged, empty rows, header narrower/wider than body) under all
+    registered and random custom decorations, random alignment settings."""
+    rng = random.Random(seed * 67867967 + 3 + int(sized * 100))
+    n = 400 if tier == "quick" else 10000
+    out = []
+    for i in range(n):
+        b = GridBuilder(rng)
+        ncols = build_table(rng, b, rng.randint(1, 6), rng.randint(0, 8), lambda: rnd_text_item(rng, sized=sized))
+        for c in range(0, ncols + 1):
+            if rng.random() < aligns:
+                b.ops.append({"op": "setprop", "owner": {"kind": "column", "t": 1, "n": c}, "k": "k_align", "v": rng.choice(["vL", "vR", "vC"])})
+        b.ops.append({"op": "wrap", "kind": "text", "over": {"t": 1}})
+        for _ in range(rng.randint(1, 3)):
+            if rng.random() < 0.8:
+                b.ops.append(rnd_decor_op(rng, 1))
+            b.ops.append({"op": "render", "w": 1, "entry": rng.choice(["Render", "RenderTo"])})
+        out.append(b.ops)
+    return out
+
+
+def gen_text_sized(seed, tier):
+    return gen_text(seed, tier, sized=0.35, aligns=0.6)
